@@ -565,12 +565,42 @@ def crosscheck_cvc5(ctx, res, limit_s=4):
     return out
 
 
-def _numeric_witness(ctx, x, y):
+def _path_envs(ctx):
+    """numeric environments for the hint: the two global probe points, and - when they do not lie on the current
+    path - a point on the path obtained from the solver for the path condition alone (inside a box of growing
+    size, so that floating point can follow)"""
+    envs = []
     for k in (0, 1):
         env = ctx.probe_env(k)
         try:
-            if not all(f.holds(ctx, env) for f in ctx.pc):
-                continue
+            if all(f.holds(ctx, env) for f in ctx.pc):
+                envs.append(env)
+        except Exception:  # noqa: BLE001
+            pass
+    if envs or not ctx.pc:
+        return envs
+    key = tuple(id(f) for f in ctx.pc)
+    cache = ctx.__dict__.setdefault("_path_env_cache", {})
+    if key not in cache:
+        found = None
+        for size in (2, 6, 30):
+            try:
+                box = _box_constraints(ctx, core.BoolConst(True), size=size)
+                st, model = ctx.check(box or [core.BoolConst(True)], kind="path-point", timeout=10000, want_model=True)
+            except Exception:  # noqa: BLE001
+                break
+            if st == "sat" and model is not None:
+                found = core.Env(ctx, base={k: float(v) for k, v in model.items() if ctx.var_info.get(k, {}).get("kind") == "input"}, probe=55)
+                break
+        cache[key] = found
+    if cache[key] is not None:
+        envs.append(cache[key])
+    return envs
+
+
+def _numeric_witness(ctx, x, y):
+    for env in _path_envs(ctx):
+        try:
             a, b = ctx.numeric(x, env), ctx.numeric(y, env)
         except (OverflowError, ZeroDivisionError, ValueError):
             continue
